@@ -91,7 +91,7 @@ def scenarios(tier, pid):
        "--preempt", 2)
     # generated programs (lib/genprog.py): the monitor is program-independent
     import genprog
-    for seed in range(40 if T else 6):
+    for seed in range(24 if T else 6):
         name, gargs = genprog.iterator_program(seed)
         if pid in ("C09", "C10", "C11", "C12", "C03"):
             S.append((name, gargs))
